@@ -19,7 +19,8 @@ RULE = (
     "Generated: 1-5 cold/synchronous traced sources with arbitrary conforming timelines (0-3 elements from the full "
     "value domain incl. falsy values, gaps 0-3, terminal completion / error / none), scripted per-subscription timelines "
     "for the re-subscribing operators; operator forms concat (factory, ops), concat_with_iterable (list, generator), "
-    "for_in, start_with (0-3 values), repeat(n in 0..4 | None, optional take), retry(n in 0..4 | None, optional take), "
+    "for_in, start_with (0-3 values; half of them followed by take(1..k+2), so that the downstream is satisfied inside the "
+    "prefix and the source must never be subscribed), every list form optionally followed by take(1..6), repeat(n in 0..4 | None, optional take), retry(n in 0..4 | None, optional take), "
     "catch (factory, catch_with_iterable list/generator, ops.catch(observable), ops.catch(handler) with handler results "
     "chosen by error tag incl. the source itself), on_error_resume_next (factory with observables and error->observable "
     "callables, ops form), while_do / do_while with scripted conditions, and composed forms in which a finite repeat(n) is "
@@ -286,6 +287,12 @@ def model(case):
     if case["op"] == "start_with":
         for v in case["vals"]:
             out.append([t, "N", canon(val(v))])
+            taken += 1
+            if take is not None and taken == take:
+                # the downstream is satisfied inside the prefix: the prefix never completes, so the source
+                # ("the next one") must not be subscribed at all
+                out.append([t, "C", None])
+                return {"out": out, "subs": subs, "free_terminal": False, "cut_in_prefix": True}
     g = _plan(case)
     runs = 0
     final = None
@@ -507,6 +514,10 @@ def _run(case):
         cls.append("same-tick-resubscribe")
     if case.get("take") is not None and exp_subs and exp_subs[-1]["kind"] == "cut":
         cls.append("cut-by-take")
+        if len(exp_subs) < len(case.get("order", [])):
+            cls.append("cut-by-take:later-sources-must-stay-unsubscribed")
+    if m.get("cut_in_prefix"):
+        cls.append("start_with:cut-inside-prefix(source-must-stay-unsubscribed)")
     if case.get("n") is None and op in ("repeat", "retry"):
         cls.append("unbounded")
     if exp and exp[-1][1] == "E":
@@ -557,7 +568,7 @@ def _lists(draw):
     order = _idx_list(draw, len(srcs))
     op, form = draw(
         st.sampled_from(
-            [("concat", "factory"), ("concat", "op"), ("concat_with_iterable", "list"), ("concat_with_iterable", "gen"), ("for_in", "list"), ("for_in", "gen"), ("start_with", "op")]
+            [("concat", "factory"), ("concat", "op"), ("concat_with_iterable", "list"), ("concat_with_iterable", "gen"), ("for_in", "list"), ("for_in", "gen"), ("start_with", "op"), ("start_with", "op")]
         )
     )
     c = {"op": op, "form": form, "srcs": srcs, "order": order}
@@ -565,7 +576,11 @@ def _lists(draw):
         c["order"] = [0]
     if op == "start_with":
         c["order"] = [draw(st.integers(0, len(srcs) - 1))]
-        c["vals"] = draw(st.lists(st.sampled_from(NAMES), min_size=0, max_size=3))
+        c["vals"] = [draw(st.sampled_from(NAMES)) for _ in range(draw(st.sampled_from([1, 2, 3, 2, 0])))]
+        if draw(st.integers(0, 1)) == 0:
+            c["take"] = draw(st.integers(1, len(c["vals"]) + 2))  # 1..k cuts inside / exactly at the end of the prefix
+    elif draw(st.integers(0, 3)) == 0:
+        c["take"] = draw(st.integers(1, 6))  # downstream satisfied in mid-list: later sources must not be subscribed
     for k, s in _COMMON.items():
         c[k] = draw(s)
     return c
